@@ -545,6 +545,38 @@ def line_predicate_differential(ck, tier):
         if (o.strip() == "1") != want:
             ck.disagree("nxosP (Lean line predicate) vs the NX-OS class pattern in CPython re", {"line": ln.decode("latin1")}, f"model={o.strip()} re={want}")
     ck.extra["line_predicate_accepting_lines_nxos"] = n_true
+    # and for Juniper Junos (`junosP`, ScrapliProps/C01PlatformJunos.lean): terminators > # % $, shell / root-shell alternatives
+    cj = re.compile(C.JunosDriver(host="h").comms_prompt_pattern.encode(), re.M | re.I)
+    alpha_j = b"abzAZ09_.-@/:+>#%$()rootROOT~ \t\r\x0b\x0c!{}[]"
+    base_j = [b"admin@vmx1>", b"admin@vmx1> ", b"admin@vmx1#", b"admin@vmx1# ", b"%", b"% ", b"$", b"admin@vmx1:~ %", b"root@vmx1:~ # ", b"root@vmx1:~ #", b"root@%", b"ROOT@host:/var/tmp #", b"xroot@a b#",
+              b"root@a b #", b"root@a  #", b"root@#", b"root#", b"a" * 63 + b">", b"a" * 64 + b">", b"a" * 64 + b"#", b"{master:0}", b"{master:0}[edit]", b"[edit]", b"ab cd%", b"ab cd>", b"ab>cd", b"x>  ",
+              b"x#\t", b"x$\x0c", b"x%  ", b"root@h:~ # x", b"root@h#x#", b"root@ab root@c d#", b"a.b-c/d:e(f)@g>", b"a+b>", b""]
+    lines_j = list(base_j)
+    for _ in range(2000 if tier == "quick" else 25000):
+        ln = bytearray(rng.choice(base_j))
+        for _ in range(rng.randint(0, 3)):
+            k = rng.random()
+            if k < 0.4 and ln:
+                ln[rng.randrange(len(ln))] = rng.choice(alpha_j)
+            elif k < 0.7:
+                ln.insert(rng.randint(0, len(ln)), rng.choice(alpha_j))
+            elif ln:
+                del ln[rng.randrange(len(ln))]
+        if b"\n" not in ln:
+            lines_j.append(bytes(ln))
+    try:
+        outs = run_model("C01", [f"linep junos {hexs(ln)}" for ln in lines_j], native=True)
+    except Exception as e:
+        ck.proof_broken("model driver Drv/C01.lean (linep junos)", repr(e))
+        return
+    n_true = 0
+    for ln, o in zip(lines_j, outs):
+        want = cj.search(ln) is not None
+        n_true += want
+        ck.extra["line_predicate_checks_junos"] = ck.extra.get("line_predicate_checks_junos", 0) + 1
+        if (o.strip() == "1") != want:
+            ck.disagree("junosP (Lean line predicate) vs the Junos class pattern in CPython re", {"line": ln.decode("latin1")}, f"model={o.strip()} re={want}")
+    ck.extra["line_predicate_accepting_lines_junos"] = n_true
 
 
 def run(tier, seed):
